@@ -32,6 +32,23 @@ CLAIMED = {
    design="DESIGN.md §4 C06"),
 }
 
+CLAIMED["C08"] = dict(
+   text="Proof-level kernel: TTL bytes/uint32/string codecs (ToBytes, LoadTTLFromBytes, ToUint32, LoadTTLFromUint32, String, ReadTTL, Minutes) with "
+        "round-trip lemmas for every count and unit (the string round trip uses the SMT theory of strings for Itoa/Atoi); replica placement "
+        "Byte/FromByte/String/FromString with round-trip lemmas and rejection of every byte or string with a digit above 2; super block header "
+        "Bytes/ReadSuperBlock field by field over a ghost file, including the read of the extra metadata; the big-endian helpers in weed/util.",
+   note="Not decided here: file id strings (hex encoding), protobuf content of the extra metadata (library), index entries (see C05/C07). "
+        "ReadSuperBlock is verified against an assumed contract of BackendStorageFile.ReadAt over a ghost byte sequence. " + TRUST,
+   design="DESIGN.md §4 C08")
+CLAIMED["C13"] = dict(
+   text="Proof-level kernel: MemorySequencer and EtcdSequencer NextFileId/SetMax meet contracts from the statement: returned ranges lie inside the "
+        "reserved range and above every earlier range of the same master; an inductive invariant (no key <= any reported max key can be handed out "
+        "any more) is preserved by NextFileId and established by SetMax, for an arbitrary reported key (ghost variable).",
+   note="The etcd helpers are assumed compare-and-swap contracts over a ghost etcd value; interleavings (locks are ghost), raft leader changes, the "
+        "snowflake sequencer and the heartbeat ordering in master_grpc_server.go are out of reach. Two open findings (64-bit wrap-around) are listed in "
+        "known_findings.json. " + TRUST,
+   design="DESIGN.md §4 C13")
+
 NA = {
  "C03":"crash-point property over byte-level truncation of two persistent files; no per-function contract within reach decides it (DESIGN §4 C03)",
  "C10":"needs inductive tree predicates and cardinality reasoning over interface-typed nodes in pointer maps with randomised picking (DESIGN §4 C10)",
